@@ -73,6 +73,14 @@ def impl_file(desc):
             fail = tracks_equal(back, [smf.fix_eot_ref(tr) for tr in desc['tracks']])
             if fail:
                 fail = 'load(save(f)) differs from f: ' + fail
+    if fail is None and storable:
+        # a saved file holds valid data bytes only: loading it with clip=True must give the very same tracks
+        try:
+            clipped = mido.MidiFile(file=io.BytesIO(data), charset=desc.get('charset', 'latin1'), clip=True)
+            if smf.file_line(clipped) != smf.file_line(back):
+                fail = 'loading the saved file with clip=True differs from clip=False: ' + smf.file_line(clipped)[:200]
+        except Exception as e:
+            fail = f'loading the saved file with clip=True raised {type(e).__name__}: {e}'
     return wline, rline, fail
 
 
